@@ -326,10 +326,47 @@ fn build(spec: &ModelSpec, store: bool) -> Result<Predictor, String> {
     }
 }
 
+/// Unrelated tag-predicting predictors: whatever one of them leaves behind in a sentence (automaton
+/// states per character, scores, tags) must not matter to the next predictor. Pattern ids are ranks
+/// in the sorted pattern list, so predictor `k` has `k` filler patterns that sort first and then one
+/// unigram per character / character type of the text alphabets: it leaves id k (k+1, ...) at every
+/// position - small numbers that are valid pattern ids in the small case models as well.
+pub fn other_predictor(k: usize) -> &'static Predictor {
+    static OTHER: std::sync::OnceLock<Vec<Predictor>> = std::sync::OnceLock::new();
+    &OTHER.get_or_init(|| {
+        (0..4)
+            .map(|k| {
+                let mut m = ModelSpec { bias: 3, char_window_size: 2, type_window_size: 2, ..Default::default() };
+                for f in 0..k {
+                    // fillers: "!", "!!", ... and digit-type runs sort before every letter / letter type
+                    m.char_ngram_model.push(nd("!".repeat(f + 1), vec![1; 4 - f]));
+                    m.type_ngram_model.push(nd(vec![1u8; f + 1], vec![1; 4 - f]));
+                }
+                // rotate which unigram comes first after the fillers
+                let chars = [['あ', 'b', 'a'], ['b', 'あ', 'a'], ['a', 'b', 'あ'], ['あ', 'a', 'b']][k];
+                for (q, c) in chars.iter().enumerate().take(1 + k % 3) {
+                    m.char_ngram_model.push(nd(c.to_string(), vec![q as i32 + 1, -2, 3, 1]));
+                }
+                for (q, t) in [[3u8, 2], [2, 3], [3, 2], [2, 3]][k].iter().enumerate().take(1 + k % 2) {
+                    m.type_ngram_model.push(nd(vec![*t], vec![q as i32 + 1, -3, 5, 1]));
+                }
+                let ngs = vec![TagNg::Char("a".into(), 0), TagNg::Type(vec![2], 0), TagNg::Type(vec![3], 1), TagNg::Char("あ".into(), 1)];
+                for tok in ["a", "b", "あ", "ab", "ba"] {
+                    m.tag_models.push(tag_model(tok, &[3, 2, 2], &ngs, 0, 5000 + tok.len() as u64));
+                }
+                let mut p = Predictor::new(m.to_model().unwrap_or_else(|e| machinery_error(&e)), true).unwrap_or_else(|e| machinery_error(&e.to_string()));
+                p.store_tag_scores(k % 2 == 0);
+                p
+            })
+            .collect()
+    })[k % 4]
+}
+
 /// forced: None = boundaries as predicted; Some(v) = written through boundaries_mut after predict.
 /// pre: 0 = tags empty before fill_tags; 1 = fill_tags already ran once on the predicted boundaries
 /// (then a filter changes them and tags are filled again); 2 = the sentence carries unrelated
-/// tags (3 per character) before prediction, as after from_tokenized / an earlier predictor.
+/// tags (3 per character) before prediction, as after from_tokenized / an earlier predictor;
+/// 3..=6 = the sentence was predicted and tagged by an unrelated predictor (`other_predictor(pre - 3)`) first.
 pub fn check_case(spec: &ModelSpec, pred: &Predictor, store: bool, text: &[char], forced: Option<&[u8]>, pre: u8) -> (bool, Option<(String, String)>) {
     let t: String = text.iter().collect();
     let r = guard(|| {
@@ -339,6 +376,10 @@ pub fn check_case(spec: &ModelSpec, pred: &Predictor, store: bool, text: &[char]
             for (k, slot) in s.tags_mut().iter_mut().enumerate() {
                 *slot = Some(format!("STALE{k}").into());
             }
+        }
+        if pre >= 3 {
+            other_predictor(pre as usize - 3).predict(&mut s);
+            s.fill_tags();
         }
         pred.predict(&mut s);
         if pre == 1 {
@@ -361,7 +402,7 @@ pub fn check_case(spec: &ModelSpec, pred: &Predictor, store: bool, text: &[char]
     let want = ref_tags(spec, text, &labels);
     let Some(want) = want else {
         // no tag category in the model: tag filling must leave the (empty) tags alone
-        if pre != 2 && (n_tags != 0 || !tags.is_empty()) {
+        if pre < 2 && (n_tags != 0 || !tags.is_empty()) {
             return (false, Some(("no-categories".into(), format!("model defines no tag category but n_tags={n_tags} tags={tags:?}"))));
         }
         return (false, None);
@@ -454,7 +495,7 @@ pub fn run(tier: Tier) -> ! {
                     let pres: &[u8] = match (fi + text.len() + ci) % 3 {
                         0 => &[0, 1],
                         1 => &[0, 2],
-                        _ => &[0],
+                        _ => [&[0u8, 3][..], &[0, 4], &[0, 5], &[0, 6]][(fi / 3 + ci + text.len() / 2) % 4],
                     };
                     for &pre in pres {
                         let (nt, v) = check_case(&c.spec, &pred, store, text, forced.as_deref(), pre);
@@ -481,7 +522,7 @@ pub fn run(tier: Tier) -> ! {
     chk.assume("reference: candidate score = bias + weights of every tag n-gram whose occurrence ends rel_position characters after the token's last character; first maximum wins");
     chk.assume("boundaries at fill time are read back from the sentence (their correctness is C01)");
     chk.finish(
-        "tag-model families T1 (all category-shape pairs), T2 (all tag n-gram subsets incl. same n-gram at two offsets and shared between tokens), T3 (which scorers exist), T4 (8/9/10 classes) T5 (zero-pattern bias/weight vectors), T6 (nested tag n-grams at one offset with independent zero patterns) x windows x all texts over {a,b,あ} x predicted boundaries and every forced {N,W,U} vector x score storing on/off x tag buffer empty / already filled once / holding unrelated tags (rotating third); non-trivial = some token receives a tag; distinct by construction",
+        "tag-model families T1 (all category-shape pairs), T2 (all tag n-gram subsets incl. same n-gram at two offsets and shared between tokens), T3 (which scorers exist), T4 (8/9/10 classes) T5 (zero-pattern bias/weight vectors), T6 (nested tag n-grams at one offset with independent zero patterns) x windows x all texts over {a,b,あ} x predicted boundaries and every forced {N,W,U} vector x score storing on/off x tag buffer empty / already filled once / holding unrelated tags / sentence predicted and tagged by an unrelated predictor first (rotating thirds); non-trivial = some token receives a tag; distinct by construction",
         true,
         &replay,
     )
